@@ -60,8 +60,68 @@ def graph_mutating_calls(facts, key):
     return f['inputs'][0] if f['inputs'] else ''
 
 
+RULES_QUICK = [('one-core', 'vec_graph::Graph', 11), ('gadgets', 'vec_graph::Graph', 11), ('two-cores', 'vec_graph::Graph', 97), ('boundary', 'vec_graph::Graph', 7),
+               ('one-core', 'hash_graph::Graph', 97), ('gadgets', 'hash_graph::Graph', 47), ('boundary', 'hash_graph::Graph', 47)]
+RULES_THOROUGH = [('one-core', 'vec_graph::Graph', 1), ('gadgets', 'vec_graph::Graph', 1), ('two-cores', 'vec_graph::Graph', 1), ('boundary', 'vec_graph::Graph', 1),
+                  ('one-core', 'hash_graph::Graph', 3), ('gadgets', 'hash_graph::Graph', 3), ('two-cores', 'hash_graph::Graph', 7), ('boundary', 'hash_graph::Graph', 3)]
+
+
+def ev_rules(ck, plan=None, vars_only=False, rule_name='E3-rules'):
+    """the statement itself on a finite family of small diagrams (qxlib/zxsem.py): every checked rule of basic_rules, every argument tuple —
+    accepted => the rewritten diagram denotes the same map (scalar included, every assignment of the boolean variables); rejected => returns false
+    and the diagram is untouched; never a panic.  -> True when every rule was decided and held"""
+    from .. import zxsem, minirust
+    facts = ck.facts
+    plan = plan or (RULES_THOROUGH if ck.tier == 'thorough' else RULES_QUICK)
+    try:
+        tot, bad, declined = zxsem.run_all(facts, plan, procs=16 if ck.tier == 'thorough' else 8, vars_only=vars_only)
+    except (minirust.NoEval, minirust.Proceed) as ex:
+        ck.ob3(rule_name, 'evaluation', None, ck.site('basic_rules::check_spider_fusion'), 'the evaluator declined (%s: %s)' % (type(ex).__name__, ex))
+        return False
+    rules = zxsem.rule_table(facts)
+    by_rule = {}
+    for fam, ty, rule, dia, args, what in bad:
+        by_rule.setdefault(rule, []).append((fam, ty, dia, args, what))
+    all_ok = True
+    for rule in sorted(rules):
+        ck.fn(rule)
+        fs = by_rule.get(rule, [])
+        for clause, pred in (('sound-when-accepted', lambda w: not w.startswith(('panics', 'the rule returns false'))),
+                             ('no-op-when-rejected', lambda w: w.startswith('the rule returns false')), ('no-panic', lambda w: w.startswith('panics'))):
+            hit = [f for f in fs if pred(f[4])]
+            if hit:
+                all_ok = False
+                fam, ty, dia, args, what = hit[0]
+                ck.ob(rule_name, '%s/%s' % (rule, clause), False, ck.site(rule),
+                      'on the diagram %s (%s) %s%s: %s [%d such cases in this run]' % (dia, ty.split('::')[0], rule.rsplit('::', 1)[-1], tuple(args), what, len(hit)))
+            else:
+                ck.ob(rule_name, '%s/%s' % (rule, clause), True, ck.site(rule), '', sample={'rule': rule, 'accepted_in_this_run': tot['per_rule_accepted'].get(rule, 0)} if clause == 'sound-when-accepted' else None)
+    never = sorted(r for r in rules if not tot['per_rule_accepted'].get(r))
+    if not vars_only:
+        ck.floor(rule_name + '-rules', len(rules), 14)
+        ck.floor(rule_name + '-rules-accepted-somewhere', len(rules) - len(never), 14)
+        ck.floor(rule_name + '-applications', tot['applications'], 900000 if ck.tier == 'thorough' else 80000)
+    else:
+        ck.floor(rule_name + '-applications', tot['applications'], 300000 if ck.tier == 'thorough' else 30000)
+    if tot['declined'] * 50 > tot['applications']:
+        k0 = sorted(declined)[0]
+        ck.ob3(rule_name, 'declined', None, ck.site(declined[k0][0]) if declined[k0][0] in facts['fns'] else '', 'the evaluator declined %d of %d applications, e.g. %s on %s' % (tot['declined'], tot['applications'], k0, declined[k0][1]))
+        all_ok = False
+    _c1, _c2 = zxsem.oracle_controls()
+    ck.control(rule_name + ' oracle: the fast contraction agrees with the reference contraction on a fixed sample of every family', _c1)
+    ck.control(rule_name + ' oracle: accepts a true identity and tells apart a wrong phase, a flipped edge type, a negated scalar and a dropped variable', _c2)
+    ck.note('%s: %d diagrams, %d rule applications (%d accepted, %d rejected, %d declined), %d rules; accepted per rule: %s'
+            % (rule_name, tot['diagrams'], tot['applications'], tot['accepted'], tot['rejected'], tot['declined'], tot['rules'],
+               ', '.join('%s %d' % (r.rsplit('::', 1)[-1], n) for r, n in sorted(tot['per_rule_accepted'].items()))))
+    return all_ok and not never
+
+
 def _run_own(ck):
     facts = ck.facts
+    ck.decided('D0 (evaluation, small scope) the statement itself: basic_rules.rs, phase.rs, params.rs and both graph back ends interpreted from their HIR on a finite family of small diagrams (one or two core spiders of either colour '
+               'with phases in multiples of pi/4, with and without boolean variables, 0..3 neighbours, boundaries, phase gadgets); for every checked rule and every argument tuple an accepted application leaves the denoted '
+               'linear map unchanged, scalar included, under every assignment of the variables (brute-force contraction over exact numbers in Q(e^{i pi/4}), independent of tensor.rs), a rejected one returns false and leaves the diagram untouched, and none panics')
+    ev_rules(ck)
     ck.decided('D1 every matcher establishes, on every accepting path, the conjuncts of its rule\'s precondition that are necessary for soundness or for not panicking (must-fact extraction over the resolved HIR against refs/rules_req.py)',
                'D2 existence typestate: in all 17 matchers and 4 helper predicates every panicking accessor on a vertex parameter is dominated by a fact that implies the vertex exists',
                'D3 rejection is a no-op: matchers take the graph by shared reference and neither back end has interior mutability; each checked wrapper mutates only under the accepting branch, with its own arguments, and returns false otherwise')
